@@ -1,2 +1,3 @@
 import JinnsDriver.C09
+import JinnsDriver.PolyProto
 import JinnsDriver.Proto
